@@ -63,7 +63,7 @@ def load_analysis(files: Dict[int, str], directory: str, include_last: bool = Fa
 
 # ---- prelude: other analyses run on the same object before the analysis under test ------------------
 PRELUDE_OPS = ["call_graph", "call_graph_cp", "decode", "kernel_breakdown_mem", "temporal", "overlap", "launch_stats", "queue",
-               "critical_path", "user_annotations", "call_graph_twice"]
+               "critical_path", "user_annotations", "call_graph_twice", "critical_path_first_step", "critical_path_first_step"]
 
 
 def run_prelude(ta, ops) -> None:
@@ -101,6 +101,11 @@ def run_prelude(ta, ops) -> None:
                 ta.get_queue_length_time_series(ranks=ranks)
             elif op == "critical_path":
                 ta.critical_path_analysis(rank=ranks[0], annotation="", instance_id=None)
+            elif op == "critical_path_first_step":
+                # a narrow window first: a later analysis of another window must not see a clipped frame
+                ta.critical_path_analysis(rank=ranks[0], annotation="ProfilerStep", instance_id=0)
+                if len(ranks) > 1:
+                    ta.critical_path_analysis(rank=ranks[-1], annotation="ProfilerStep", instance_id=0)
             elif op == "user_annotations":
                 ta.get_gpu_kernels_with_user_annotations(rank=ranks[0])
         except Exception:  # noqa: BLE001
